@@ -70,6 +70,16 @@ impl DespawnAccessTracker
     }
 }
 
+#[cfg(feature = "verif")]
+impl DespawnAccessTracker
+{
+    /// Returns (number of prepared entries, currently reacting).
+    pub(crate) fn verif_state(&self) -> (usize, bool)
+    {
+        (self.prepared.len(), self.currently_reacting)
+    }
+}
+
 impl Default for DespawnAccessTracker
 {
     fn default() -> Self
